@@ -154,7 +154,9 @@ def build_inputs(rng, tier):
                 lambda: dom14_case(rng, rng.choice(["single", "joint"]), repeats=False)][k % 3]()
         via = "observation" if k % 2 else "triplets"
         inputs.append(dict(main, kind="omo:%s:%s" % (via, main["kind"]), main=main,
-                           omo={"muts": rng.randint(2, 4), "mut_seed": rng.randint(0, 10 ** 9), "via": via}))
+                           omo={"muts": rng.randint(2, 4), "mut_seed": rng.randint(0, 10 ** 9), "via": via,
+                                # every fourth job: a fluent is set to a zero and then to the OTHER zero (equal numbers, different values)
+                                "script": ["set-zero", "flip-zero"] if k % 4 == 2 else []}))
     # the empty plan
     e = dom14_case(rng, "single", repeats=False)
     e.update(kind="empty-plan", plan=[])
@@ -524,7 +526,11 @@ def run(args):
                    "0.1, inf, subnormal), with and without repeated arguments; plans are random walks of 1-6 steps preferring applicable calls (refused steps "
                    "and allow_invalid_actions occur), single-agent through TrajectoryExporter.parse_plan/export/export_to_file and joint (1-3 agents, nop entries) "
                    "through MultiAgentTrajectoryExporter; the empty plan; the 7 trajectory files shipped under /repo/tests (read, re-exported, re-read).  The file is "
-                   "parsed back by the real TrajectoryParser with the problem's objects and with deduced objects.  Non-trivial: at least one step and a non-empty "
+                   "parsed back by the real TrajectoryParser with the problem's objects and with deduced objects.  OBSERVE-MUTATE-OBSERVE: a triplet list (the "
+                   "exporter's own, or one made from the components of the Observation parsed from its file) is exported and parsed back, then one of its states is "
+                   "changed in place through the public attributes (type-correct fact added / discarded, group deleted, set_value incl. the other zero and one ulp, fluent "
+                   "put / deleted, fact and fluent objects re-mapped to other objects, dicts rebuilt) and the SAME list is dumped, exported and parsed back again, 2-4 times; "
+                   "every moment is judged as a case of its own.  Non-trivial: at least one step and a non-empty "
                    "state; distinct by input hash.")
     cov["samples"] = [{"kind": c["input"]["case"]["kind"], "plan": c["input"]["implementation"].get("plan"),
                        "export": str(c["input"]["implementation"].get("export"))[:400]} for c in cases[:3]]
